@@ -19,8 +19,11 @@ U14 == <<".", "d", "d/f", "dev", "f", "k", "l", "z">>
 P14 == [p \in {".", "d", "d/f", "dev", "f", "k", "l", "z"} |-> IF p = "d/f" THEN "d" ELSE "."]
 U01 == <<".", "a", "b", "d", "d/a">>
 P01 == [p \in {".", "a", "b", "d", "d/a"} |-> IF p = "d/a" THEN "d" ELSE "."]
+(* C15 index agreement: walk order differs from bytewise order ("data/inner" vs "data-old", "data.txt"; names below ".") *)
+U15 == <<"+p", "-d", ".", ".h", "Z", "a b", "data", "data-old", "data.txt", "data/inner">>
+P15 == [p \in {"+p", "-d", ".", ".h", "Z", "a b", "data", "data-old", "data.txt", "data/inner"} |-> IF p = "data/inner" THEN "data" ELSE "."]
 (* last path component of every path used in any universe *)
-BaseAll == [p \in {".", "a", "ab", "b", "c", "d", "d/a", "d/b", "d/c", "d/e", "d/e/a", "d/f", "e", "e/a", "f", "l", "ro", "ro/f", "s", "x", "x/f", "y", "z", "k", "d/l", "dev"} |->
+BaseAll == [p \in {".", "a", "ab", "b", "c", "d", "d/a", "d/b", "d/c", "d/e", "d/e/a", "d/f", "e", "e/a", "f", "l", "ro", "ro/f", "s", "x", "x/f", "y", "z", "k", "d/l", "dev", "+p", "-d", ".h", "Z", "a b", "data", "data-old", "data.txt", "data/inner"} |->
    CASE p \in {"d/a", "d/e/a", "e/a"} -> "a" [] p = "d/b" -> "b" [] p = "d/c" -> "c" [] p = "d/e" -> "e"
-     [] p \in {"d/f", "ro/f", "x/f"} -> "f" [] p = "d/l" -> "l" [] OTHER -> p]
+     [] p \in {"d/f", "ro/f", "x/f"} -> "f" [] p = "d/l" -> "l" [] p = "data/inner" -> "inner" [] OTHER -> p]
 =============================================================================
